@@ -41,8 +41,11 @@ SPEC = {
     "gen_items": ["src/smart.rs:impl Kind for Arc"],
     "tieA_required": True,
     "props_need_gen": ["props/C04.vo"],
-    "case_libs": ["theories/CasesCounter.vo"],
-    "drivers": [{"driver": "counter", "profiles": ["debug", "release"]}],
+    "case_libs": ["theories/CasesCounter.vo", "theories/CasesBytes.vo"],
+    "drivers": [{"driver": "counter", "profiles": ["debug", "release"]},
+                # the single-threaded face of "released only after the last access": the ordering probe of the bytes driver samples the share
+                # count at the first allocation of every copy-on-write operation on a shared buffer (the share must still be held then)
+                {"driver": "bytes", "profiles": ["debug"], "args": ["byt", "focus=sharing"]}],
     "custom": loom_suite,
     "rule": ("(1) Kind value semantics of Arc/Rc/Unique through Smart from stored states {0,1,2,5,MAX-4..MAX-1} (hook) against the model's can_incr/is_unique/get, debug+release; "
              "(2) loom litmus suite on the real Smart<_, Arc> with a loom-tracked payload whose destructor is a write: read/drop on two threads, read+drop vs in-place mutation, "
